@@ -94,6 +94,7 @@ var shapes = []string{"file", "file", "dir", "dir-nonexec", "dir-extra-before", 
 func main() {
 	r := lib.Start("C20", "exploration")
 	r.Rule = "PRNG sequences of up to 6 install/uninstall operations over 2 plugin names x 23 versions (17 in precedence order incl. pre-release/build metadata/numeric-vs-lexical traps, 6 invalid) x overwrite x 25 source shapes (file; sub-directory named like the source; symlinked candidate; group-only execute bits; file whose name differs from the reported name in letter case only; symbolic link to the file; directory with executable / single non-executable candidate, extra files sorting before and after, sub-directories incl. one holding a same-named executable, symlink, two candidates, none; invalid / misnamed metadata; non-executable file); distinct by (sequence, step); non-trivial = install onto an existing plugin, or from a directory source"
+	r.Rule += "; plus stray entries in the plugin root, damaged installed plugins (failing, missing, hanging, interpreter gone), relative source paths with a decoy on PATH (helper process), .exe names, dot-files, metadata followed by further output"
 	r.Assumptions = []string{"plugins are /bin/sh scripts printing embedded metadata (benign names only)",
 		"first-time installation of a plugin whose version is not a semantic version is not judged (nothing is replaced)",
 		"expected mode of an installed file = source mode & 0755; a single non-executable candidate gets its user-execute bit set first (documented behaviour)"}
